@@ -561,6 +561,33 @@ def nonlinear_stream(ctx, rng, count):
                 viols.append(('Expression.scalar_atoms() raised %s: %s' % (type(ex2).__name__, str(ex2)[:80]), {'F5': True}))
         except Exception as ex:  # noqa: BLE001
             viols.append(('%s raised %s: %s' % (kind, type(ex).__name__, str(ex)[:100]), None))
+    # atoms of DIFFERENT kinds over the SAME affine argument, combined in one scalar expression and evaluated where the kinds differ
+    kinds = {'abs': (lambda e: cl_abs(e), lambda v: np.abs(v)), 'pos': (lambda e: cl_pos(e), lambda v: np.maximum(v, 0)),
+             'exp': (lambda e: cl.weighted_sum_exp(np.array([1.0]), e), lambda v: np.exp(v)), 'norm': (lambda e: cl.vector2norm(e), lambda v: np.abs(v))}
+    for t in range(max(4, count // 4)):
+        x = cl.Variable(shape=(2,), name='c08mix_%d_%d' % (ctx.seed, t))
+        k1, k2 = rng.sample(sorted(kinds), 2)
+        co = [float(rng.choice([-2, -1, 1, 2, 3])) for _ in range(2)]
+        off = float(rng.choice([-1, 0, 1]))
+        c1, c2 = (float(v) for v in rng.sample([1.0, 2.0, 3.0, -1.0, 0.5], 2))
+        a = Expression([co[0] * x[0] + co[1] * x[1] + off])
+        try:
+            e = c1 * np.asarray(kinds[k1][0](a), dtype=object).flat[0] + c2 * np.asarray(kinds[k2][0](a), dtype=object).flat[0]
+            for sign in (-1, 1):
+                x.value = np.array([sign * 0.75 / co[0], sign * 0.5 / co[1]]) - np.array([off / co[0], 0.0])
+                av = co[0] * x.value[0] + co[1] * x.value[1] + off
+                want = c1 * float(kinds[k1][1](av)) + c2 * float(kinds[k2][1](av))
+                got = float(np.asarray(e.value, dtype=float).ravel()[0])
+                ctx.case({'stream': 'mixed-atoms', 'kinds': [k1, k2], 'arg': av})
+                ctx.count('stream:mixed-atoms')
+                if abs(got - want) > 1e-9 * max(1.0, abs(want)):
+                    viols.append(('%g*%s(a) + %g*%s(a) with a = %g evaluates to %.9g, the definition gives %.9g' % (c1, k1, c2, k2, av, got, want), None))
+                    break
+            natoms = len(e.atoms_to_coeffs)
+            if natoms != 2:
+                viols.append(('%s(a) and %s(a) over the same argument are %d scalar atom(s) of their sum instead of 2' % (k1, k2, natoms), None))
+        except Exception as ex:  # noqa: BLE001
+            viols.append(('mixed atoms %s / %s raised %s: %s' % (k1, k2, type(ex).__name__, str(ex)[:100]), None))
     # are_equivalent: total, sound, complete on affine
     for t in range(count):
         x = cl.Variable(shape=(2,), name='c08eq_%d_%d' % (ctx.seed, t))
